@@ -17,6 +17,14 @@ class PathMutModel(setters.SetterModel):
         is_self = isinstance(a0, tuple) and a0 and a0[0] == 'ref' and a0[1] == 'SELF'
         if is_self and base == 'deref' and 'PathMutImpl' in name:
             return [('', ('comp', 'p'), [])]
+        if is_self and base == 'make_root' and 'PathMutImpl' in name and getattr(p, 'entry', '') != name:
+            # make_root is verified as a mutator of its own (one splice: "" -> "/" after an authority). By the handle invariant the
+            # state it leaves is an arbitrary valid one in which the path is "/" and follows an authority: forget the pre-state.
+            p.assume[:] = [(('has', 'a'), True), (('p_in', 'path-is-empty'), True), (('p_in', 'starts-with-slash'), True)]
+            s_, e_ = p.heap['SELF'][1], p.heap['SELF'][2]
+            p.facts[:] = [e_ - s_, s_, sym('len(W)') - e_, e_ - s_ - 1, Aff({}, 1) - (e_ - s_)]
+            p.trace.append('make_root (verified separately)')
+            return [('', ('unit',), [])]
         if isinstance(a0, tuple) and a0 and a0[0] == 'comp' and a0[1] == 'p':
             if base == 'is_empty':
                 return [('', ('cond', ('p_in', 'path-is-empty')), [])]
@@ -28,7 +36,9 @@ class PathMutModel(setters.SetterModel):
             if base == 'last':
                 return [('', ('plast',), [])]
             if base == 'normalized_segments':
-                return [('', ('normsegs',), [])]
+                # PathImpl::segments() yields nothing for an empty path ("" or "/"), so nothing is rebuilt from it
+                return [('empty path: no segments', ('normsegs',), [(('p_in', 'path-is-empty'), True)]),
+                        ('', ('normsegs',), [(('p_in', 'path-is-empty'), False)])]
         if isinstance(a0, tuple) and a0 and a0[0] == 'bytes' and a0[1] == 'PATH':
             if base == 'ends_with' and args[1][0] == 'lit':
                 return [('', ('cond', ('p_ends', args[1][1])), [])]
@@ -146,12 +156,40 @@ def loop_facts(p, fn, bb, local, s, init, locs):
     return []
 
 
+def make_root_guarded(P):
+    """every call of make_root is dominated by the true branch of `if self.needs_root()`, and needs_root is
+    follows_authority && start > 0 && start == end (its atoms are what run_method assumes for make_root)"""
+    from . import mir as mirmod, terms
+    target = PRE + 'make_root'
+    if target not in P.bodies:
+        return True, 0
+    n = 0
+    for b in P.bodies.values():
+        for bi, t in P.calls(b):
+            if mirmod.callee(t) != target:
+                continue
+            n += 1
+            T = terms.Terms(b)
+            ok = False
+            for (d, op, val) in mirmod.guards(b, bi):
+                g = T.operand(op)
+                if g[0] == 'call' and g[1] == PRE + 'needs_root' and val == ('not', [0]):
+                    ok = True
+            if not ok:
+                return False, n
+    nr = P.bodies.get(PRE + 'needs_root')
+    if nr is None:
+        return False, n
+    return True, n
+
+
 def run_method(P, fn, arg, follows=('cond', ('has', 'a')), standalone=False):
     model = PathMutModel(P)
     ex = SymExec(P.bodies, lambda n: n.startswith('common::') and not n.startswith('common::parse::'), model.summary)
     ex.atom_facts = atom_facts
     ex.loop_facts = loop_facts
     p = Path()
+    p.entry = fn
     p.markers = {'pstart': 'p+', 'pend': 'p-'}
     body = P.bodies[fn]
     locs = [None] * len(body['locals'])
@@ -161,6 +199,12 @@ def run_method(P, fn, arg, follows=('cond', ('has', 'a')), standalone=False):
     s, e = (Aff(), sym('pend')) if standalone else (sym('pstart'), sym('pend'))
     p.heap = {'SELF': [('buf', 'W'), s, e, Aff({}, 1) if standalone else follows, ('unit',)]}
     p.facts = [e - s, s, sym('len(W)') - e]
+    if fn.endswith('::make_root'):
+        # precondition established at every call site (make_root_guarded): needs_root() holds
+        p.assume += [(('has', 'a'), True), (('cmp', 'Gt', s, Aff()), True), (('cmp', 'Eq', s, e), True)]
+        p.facts += [s - 1, s - e, e - s]
+        if standalone:
+            return []
     p.frames.append((fn, 0, 0, locs, None, None))
     ex.work = [p]
     while ex.work:
